@@ -43,6 +43,11 @@ impl WeightedMean {
         // and
         // http://people.ds.cam.ac.uk/fanf2/hermes/doc/antiforgery/stats.pdf.
         self.weight_sum += weight;
+        if self.weight_sum == 0. {
+            // No weight has been accumulated yet, so the weighted mean is still
+            // undefined and there is nothing to update (avoids 0/0 below).
+            return;
+        }
 
         let prev_avg = self.weighted_avg;
         self.weighted_avg = prev_avg + (weight / self.weight_sum) * (sample - prev_avg);
